@@ -202,7 +202,7 @@ def run(ctx):
     ctx.assumptions = ["trees without any clone are exercised by C12 (table code), not here",
                        "chain 0 is always present (readers take data and samples from it)"]
     shards = 16
-    tasks = [{"seed": ctx.seed, "shard": i, "count": 10 if quick else 130} for i in range(shards)]
+    tasks = [{"seed": ctx.seed, "shard": i, "count": 10 if quick else 600} for i in range(shards)]
     ctx.map("checks.c11", "trace_task", tasks, timeout=3000)
     if ctx.counters.get("report_rows", 0) < 100 or ctx.counters.get("traces_with_tied_maximum", 0) < 3:
         ctx.inconc("too few report rows / tied maxima observed")
